@@ -35,7 +35,7 @@ fn info(len: usize) -> KindInfo {
 }
 const S_ANYCHUNK: &[u16] = &[M_CHUNK | M_BUF, M_SINGLE | M_LEN];
 
-// @verif family=SEQ stubbing=1 quick=C17 timeout=900 owner=C17
+// @verif family=SEQ stubbing=1 quick=C17 timeout=1500 owner=C17
 // @bounds kind=Vec<Tracked> len<=3 capacity 4; prefix<=3 next(); next_chunk(n<=len+2) or buffered_iter(n) x1-2, partly consumed; single/len query; end in {drop, into_seq_iter all/partly}; Vec::from_raw_parts stubbed to assert length <= capacity
 #[kani::proof]
 #[kani::unwind(7)]
@@ -48,7 +48,7 @@ fn precond_vec() {
     kani::cover!(m.w_short_chunk, "W: a short final chunk happened");
 }
 
-// @verif family=SEQ stubbing=1 quick=C17 timeout=900 owner=C17
+// @verif family=SEQ stubbing=1 quick=C17 timeout=1500 owner=C17
 // @bounds kind=[Tracked;3]; prefix<=3 next(); next_chunk(n<=5) or buffered_iter(n) x1-2, partly consumed; single/len query; end in {drop, into_seq_iter all/partly}; Vec::from_raw_parts stubbed to assert length <= capacity
 #[kani::proof]
 #[kani::unwind(7)]
